@@ -799,14 +799,7 @@ func checkLongLivedRefs(c *report.Ctx) {
 	}
 	sort.Strings(extra)
 	c.Check("R-WHO", "long-lived-references", "runtime and extension objects of a generation are referenced only from the registration service's field/maps and the per-shutdown map, all of which the reset path clears; they are therefore dropped wholesale with their state, subscriptions and parked threads", len(extra) == 0 && len(got) >= 5, token.NoPos, len(got), "reference-holding fields: %v; unexpected: %v", keysOf(got), extra)
-	// agents maps Clear re-make both maps
-	for _, mp := range []string{"ExternalAgentsMap", "InternalAgentsMap"} {
-		if f := fn(c, coreP, "(*"+mp+").Clear"); f != nil {
-			fw := fieldWrites(f, "L/core."+mp)
-			ok := oneOf("make", fw["byName"]...) && oneOf("make", fw["byID"]...)
-			c.Check("R-RESET", "L/core."+mp+".Clear", "clearing drops every registration (both indexes re-made)", ok, fpos(f), 2, "writes: %v", fw)
-		}
-	}
+	checkAgentMapsCleared(c)
 	// shutdownAgents re-makes agentsAwaitingExit before use
 	if f := fn(c, "L/rapid", "(*shutdownContext).shutdownAgents"); f != nil {
 		fw := fieldWrites(f, "L/rapid.shutdownContext")
@@ -1000,4 +993,16 @@ func setterWrites(c *report.Ctx, T string, resetFns map[*ssa.Function]bool, isCt
 		}
 	}
 	return out
+}
+
+// checkAgentMapsCleared: clearing the registration maps drops every entry of both indexes.
+func checkAgentMapsCleared(c *report.Ctx) {
+	// agents maps Clear re-make both maps
+	for _, mp := range []string{"ExternalAgentsMap", "InternalAgentsMap"} {
+		if f := fn(c, coreP, "(*"+mp+").Clear"); f != nil {
+			fw := fieldWrites(f, "L/core."+mp)
+			ok := oneOf("make", fw["byName"]...) && oneOf("make", fw["byID"]...)
+			c.Check("R-RESET", "L/core."+mp+".Clear", "clearing drops every registration (both indexes re-made)", ok, fpos(f), 2, "writes: %v", fw)
+		}
+	}
 }
